@@ -68,7 +68,8 @@ package allocators
 // grows by exactly that block; a failed one changes nothing
 //@   ensures[C02,C04,C08:fresh-block-of-the-pool] ret1 == nil ==> (!old(outst(self))[blockkey(ret0.IP)] && poollo(self) <= blockkey(ret0.IP) && blockkey(ret0.IP) <= poolhi(self) && \
 //@       (v4pool(self) ==> len(ret0.IP) == 4))
-//@   ensures[C02,C04,C08:view-grows-by-that-block] forall key bv128: outst(self)[key] == (old(outst(self))[key] || (ret1 == nil && key == blockkey(ret0.IP)))
+//@   ensures[C02,C04,C08:view-grows-by-that-block] forall key bv128: (old(outst(self))[key] || (ret1 == nil && key == blockkey(ret0.IP))) ==> outst(self)[key]
+//@   ensures[C02,C04,C08:view-grows-by-nothing-else] forall key bv128: outst(self)[key] ==> (old(outst(self))[key] || (ret1 == nil && key == blockkey(ret0.IP)))
 // C07 at the interface (IPv4 pools): a hint naming a block of the pool that is not outstanding is honoured
 //@   ensures[C02,C07:hint-honoured-v4] (v4pool(self) && isv4(hint.IP) && poollo(self) <= zext(128, v4of(hint.IP)) && zext(128, v4of(hint.IP)) <= poolhi(self) && \
 //@       !old(outst(self))[zext(128, v4of(hint.IP))]) ==> (ret1 == nil && blockkey(ret0.IP) == zext(128, v4of(hint.IP)))
